@@ -463,12 +463,12 @@ func c13Build(v *c13Val, dst reflect.Value) {
 		dst.Set(m)
 	case c13Struct:
 		for i, f := range v.fields {
-			c13Build(v.fvals[i], dst.FieldByName(f.name))
+			c13Build(v.fvals[i], c13DirectField(dst, f.name))
 		}
 	case c13PtrStruct:
 		p := reflect.New(n.elem.typ)
 		for i, f := range v.fields {
-			c13Build(v.fvals[i], p.Elem().FieldByName(f.name))
+			c13Build(v.fvals[i], c13DirectField(p.Elem(), f.name))
 		}
 		dst.Set(p)
 	}
@@ -529,7 +529,10 @@ type c13Matcher struct {
 	absent  int64
 	ownSeen int64
 	nsSeen  int64
-	kinds   map[string]struct{}
+	// embedded struct members present in the document, and how many of them
+	// are keyed by their own Go name in another case
+	embSeen, embFoldSeen int64
+	kinds                map[string]struct{}
 }
 
 func (m *c13Matcher) add(class, path string, n *c13Node, own, elem, ns bool, text string) {
@@ -566,7 +569,7 @@ func (m *c13Matcher) unset(n *c13Node, got reflect.Value, raw bool, path string,
 			if f.skip {
 				continue
 			}
-			fv := got.FieldByName(f.name)
+			fv := c13DirectField(got, f.name)
 			if !fv.IsValid() {
 				m.add("shape", path+"."+f.name, f.node, own, elem, false, "field missing from the value")
 				continue
@@ -740,7 +743,7 @@ func (m *c13Matcher) match(n *c13Node, want *c13Val, got reflect.Value, raw bool
 		}
 		leaf()
 		if got.Len() != len(want.mkeys) {
-			m.add("leaf-mismatch", path, n, own, elem, false, fmt.Sprintf("want %d entries %q, got %s", len(want.mkeys), want.mkeys, c13Show(got)))
+			m.add("leaf-mismatch", path, n, own, elem, false, fmt.Sprintf("want %d entries %s, got %d entries %s", len(want.mkeys), c13Trim(fmt.Sprintf("%q", want.mkeys), 200), got.Len(), c13Show(got)))
 			return
 		}
 		sub := &c13Matcher{fm: m.fm}
@@ -810,7 +813,7 @@ func (m *c13Matcher) matchFields(n *c13Node, want *c13Val, got reflect.Value, ra
 			return
 		}
 		for _, f := range st.fields {
-			fv := got.FieldByName(f.name)
+			fv := c13DirectField(got, f.name)
 			if f.skip {
 				if !raw && fv.IsValid() {
 					m.add("shape", path+"."+f.name, f.node, own, elem, false, "skipped field present in the pointerified value")
@@ -820,6 +823,12 @@ func (m *c13Matcher) matchFields(n *c13Node, want *c13Val, got reflect.Value, ra
 			if !fv.IsValid() {
 				m.add("shape", path+"."+f.name, f.node, own, elem, false, "field missing from the value")
 				continue
+			}
+			if f.embedded && want.field(f) != nil {
+				m.embSeen++
+				if strings.EqualFold(f.keys[m.fm], f.name) {
+					m.embFoldSeen++
+				}
 			}
 			m.match(f.node, want.field(f), fv, raw, path+"."+f.name, own || f.hasOwn(m.fm), elem)
 		}
@@ -920,4 +929,17 @@ func c13Presence(v *c13Val, b *strings.Builder) int {
 		b.WriteByte('1')
 	}
 	return 1
+}
+
+// c13DirectField finds a field declared directly in the struct v (never one
+// promoted through an embedded struct, which reflect's FieldByName would
+// also return).
+func c13DirectField(v reflect.Value, name string) reflect.Value {
+	t := v.Type()
+	for i := 0; i < t.NumField(); i++ {
+		if t.Field(i).Name == name {
+			return v.Field(i)
+		}
+	}
+	return reflect.Value{}
 }
